@@ -284,6 +284,11 @@ impl<R: DynamicChannelRegion> RegionHandler for DynamicChannelPlan<R> {
             && let Some(mut channel) = self.channels[index as usize]
             && channel.frequency != 0
         {
+            // The channel exists, but a frequency the device cannot use is only reported,
+            // never stored.
+            if !freq_valid {
+                return (false, true);
+            }
             channel.dl_frequency = if freq == channel.frequency {
                 // Reset downlink frequency
                 None
